@@ -41,36 +41,36 @@ pub fn plan_for(prop: &str, tier: &str) -> Plan {
     match prop {
         "C01" => {
             p.scenarios = if q {
-                sc(&[("fig8-div", 1), ("fig8-back", 1), ("read-div", 1), ("member-rm1-2v", 0), ("fig8-div-gc", 2), ("fig8-back-t4", 0), ("snap-fig8", 1), ("fig8", 1), ("fig8-div", 2), ("snap", 1), ("member", 1), ("crash3", 1)])
+                sc(&[("fig8-div", 1), ("fig8-back", 1), ("read-div", 1), ("fig8-5-cbv", 0), ("member-rm1-2v", 0), ("fig8-div-gc", 2), ("fig8-back-t4", 0), ("snap-fig8", 1), ("fig8", 1), ("fig8-div", 2), ("snap", 1), ("member", 1), ("crash3", 1)])
             } else {
-                sc(&[("fig8-div", 1), ("fig8-back", 1), ("read-div", 1), ("member-rm1-2v", 0), ("fig8-div-gc", 2), ("fig8-back-t4", 0), ("snap-fig8", 1), ("fig8", 1), ("fig8-div", 2), ("snap", 1), ("member", 1), ("crash3", 1), ("fig8-div", 3), ("snap", 2), ("member", 2), ("crash3", 2), ("fig8-pv", 1), ("fig8", 2), ("fig8-div", 4), ("fig8-pv", 0), ("fig8", 3)])
+                sc(&[("fig8-div", 1), ("fig8-back", 1), ("read-div", 1), ("fig8-5-cbv", 0), ("member-rm1-2v", 0), ("fig8-div-gc", 2), ("fig8-back-t4", 0), ("snap-fig8", 1), ("fig8", 1), ("fig8-div", 2), ("snap", 1), ("member", 1), ("crash3", 1), ("fig8-div", 3), ("snap", 2), ("member", 2), ("crash3", 2), ("fig8-pv", 1), ("fig8", 2), ("fig8-div", 4), ("fig8-pv", 0), ("fig8", 3)])
             };
             p.required_stats = vec![Stat::CommitAdvances, Stat::EntriesApplied, Stat::LeadersSeen];
             p.explanation = "explicit-state exploration; ghost committed-log registry: every report of an index as committed (commit index, hand-out for apply, snapshot install) must agree with the first report, and a node's retained log below its commit index must agree with the registry after every API call".into();
         }
         "C02" => {
             p.scenarios = if q {
-                sc(&[("elect", 1), ("elect-pv", 1), ("elect-cq", 1), ("elect-pvcq", 1), ("elect-stale", 0), ("stale", 1), ("member", 1), ("crash3", 1), ("xfer-abort", 0), ("xfer-race", 0), ("xfer-race", 1), ("elect", 3)])
+                sc(&[("elect", 1), ("elect-pv", 1), ("elect-cq", 1), ("elect-pvcq", 1), ("elect-stale", 0), ("stale", 1), ("member", 1), ("crash3", 1), ("xfer-abort", 0), ("xfer-race", 0), ("elect-pvmig-late", 0), ("xfer-race", 1), ("elect", 3)])
             } else {
-                sc(&[("elect", 1), ("elect-pv", 1), ("elect-cq", 1), ("elect-pvcq", 1), ("elect-stale", 0), ("stale", 1), ("member", 1), ("crash3", 1), ("xfer-abort", 0), ("xfer-race", 0), ("xfer-race", 1), ("elect", 3), ("elect-prio", 3), ("elect-pvcq", 3), ("xfer", 1), ("stale", 2), ("member-joint", 2), ("member", 2), ("elect", 2), ("elect", 4)])
+                sc(&[("elect", 1), ("elect-pv", 1), ("elect-cq", 1), ("elect-pvcq", 1), ("elect-stale", 0), ("stale", 1), ("member", 1), ("crash3", 1), ("xfer-abort", 0), ("xfer-race", 0), ("elect-pvmig-late", 0), ("xfer-race", 1), ("elect", 3), ("elect-prio", 3), ("elect-pvcq", 3), ("xfer", 1), ("stale", 2), ("member-joint", 2), ("member", 2), ("elect", 2), ("elect", 4)])
             };
             p.required_stats = vec![Stat::LeadersSeen, Stat::VotesGranted];
             p.explanation = "explicit-state exploration; ghost leader_of[term] checked after every API call on every node, across crashes and restarts (crash cuts between receiving a vote request and persisting the vote included)".into();
         }
         "C03" => {
             p.scenarios = if q {
-                sc(&[("fig8-div", 1), ("fig8", 1), ("fig8-div", 2), ("fig8-back", 1), ("fig8-back-prio", 0), ("snap-lag", 0), ("snap-lazy", 0), ("elect-pvcq", 1), ("elect-prio", 1), ("elect-stale", 0), ("elect-prio-stale", 0), ("xfer", 0), ("xfer-lag2", 0), ("xfer-abort", 0)])
+                sc(&[("fig8-div", 1), ("fig8", 1), ("fig8-div", 2), ("fig8-back", 1), ("fig8-back-prio", 0), ("fig8-5-cbv", 0), ("snap-lag", 0), ("snap-lazy", 0), ("elect-pvcq", 1), ("elect-prio", 1), ("elect-stale", 0), ("elect-prio-stale", 0), ("xfer", 0), ("xfer-lag2", 0), ("xfer-abort", 0)])
             } else {
-                sc(&[("fig8-div", 1), ("fig8", 1), ("fig8-div", 2), ("fig8-back", 1), ("fig8-back-prio", 0), ("snap-lag", 0), ("snap-lazy", 0), ("elect-pvcq", 1), ("elect-prio", 1), ("elect-stale", 0), ("elect-prio-stale", 0), ("xfer", 0), ("xfer-lag2", 0), ("xfer-abort", 0), ("fig8-div", 3), ("fig8-back-prio", 1), ("elect-prio", 3), ("xfer-abort", 1), ("xfer", 1), ("fig8", 2), ("xfer-abort", 2), ("fig8", 3)])
+                sc(&[("fig8-div", 1), ("fig8", 1), ("fig8-div", 2), ("fig8-back", 1), ("fig8-back-prio", 0), ("fig8-5-cbv", 0), ("snap-lag", 0), ("snap-lazy", 0), ("elect-pvcq", 1), ("elect-prio", 1), ("elect-stale", 0), ("elect-prio-stale", 0), ("xfer", 0), ("xfer-lag2", 0), ("xfer-abort", 0), ("fig8-div", 3), ("fig8-back-prio", 1), ("elect-prio", 3), ("xfer-abort", 1), ("xfer", 1), ("fig8", 2), ("xfer-abort", 2), ("fig8", 3)])
             };
             p.required_stats = vec![Stat::LeadersSeen, Stat::VotesGranted, Stat::PreVotesGranted, Stat::CommitAdvances];
             p.explanation = "explicit-state exploration; (a) every leader's log checked against the registry of entries committed in earlier terms after every API call, (b) every generated vote / pre-vote grant checked against the voter's own last (term, index) in its pre-state".into();
         }
         "C04" => {
             p.scenarios = if q {
-                sc(&[("repl", 1), ("repl-i1-sz", 1), ("crash3", 1), ("crash2-async", 1), ("fig8-div", 1), ("fig8-div", 2), ("fig8-div-gc", 1), ("fig8-div-gc", 2), ("fig8-back", 0), ("read-div", 1), ("read-div", 2), ("member-rm1-2v", 0), ("fig8-back-t4", 0), ("crash2-async-loose", 1), ("relead5", 1), ("relead5", 2), ("member-joint", 1), ("member", 1), ("fig8", 1)])
+                sc(&[("repl", 1), ("repl-i1-sz", 1), ("crash3", 1), ("crash2-async", 1), ("fig8-div", 1), ("fig8-div", 2), ("fig8-div-gc", 1), ("fig8-div-gc", 2), ("fig8-back", 0), ("read-div", 1), ("read-div", 2), ("fig8-5-cbv", 0), ("member-rm1-2v", 0), ("fig8-back-t4", 0), ("crash2-async-loose", 1), ("relead5", 1), ("relead5", 2), ("member-joint", 1), ("member", 1), ("fig8", 1)])
             } else {
-                sc(&[("repl", 1), ("repl-i1-sz", 1), ("crash3", 1), ("crash2-async", 1), ("fig8-div", 1), ("fig8-div", 2), ("fig8-div-gc", 1), ("fig8-div-gc", 2), ("fig8-back", 0), ("read-div", 1), ("read-div", 2), ("member-rm1-2v", 0), ("fig8-back-t4", 0), ("crash2-async-loose", 1), ("relead5", 1), ("relead5", 2), ("member-joint", 1), ("member", 1), ("fig8", 1), ("repl-async", 1), ("repl-gc", 1), ("repl-skip", 1), ("repl", 2), ("crash3-async", 1), ("member-joint", 2), ("member", 2), ("crash3-async-loose", 1), ("repl", 3)])
+                sc(&[("repl", 1), ("repl-i1-sz", 1), ("crash3", 1), ("crash2-async", 1), ("fig8-div", 1), ("fig8-div", 2), ("fig8-div-gc", 1), ("fig8-div-gc", 2), ("fig8-back", 0), ("read-div", 1), ("read-div", 2), ("fig8-5-cbv", 0), ("member-rm1-2v", 0), ("fig8-back-t4", 0), ("crash2-async-loose", 1), ("relead5", 1), ("relead5", 2), ("member-joint", 1), ("member", 1), ("fig8", 1), ("repl-async", 1), ("repl-gc", 1), ("repl-skip", 1), ("repl", 2), ("crash3-async", 1), ("member-joint", 2), ("member", 2), ("crash3-async-loose", 1), ("repl", 3)])
             };
             p.required_stats = vec![Stat::CommitAdvances, Stat::Crashes];
             p.explanation = "explicit-state exploration; at every leader commit advance: entry of own term and durable (on the simulated disks, not in raft-rs bookkeeping) on a majority of each half of the leader's configuration; non-leader commit never beyond a leader's".into();
@@ -104,9 +104,9 @@ pub fn plan_for(prop: &str, tier: &str) -> Plan {
         }
         "C08" => {
             p.scenarios = if q {
-                sc(&[("read", 1), ("read-single", 0), ("read-single", 1), ("read-rm1", 1), ("read-rm1", 2), ("read-div", 2), ("read-five", 0), ("read-five", 1), ("read-cc", 0), ("read-lagf", 2), ("read", 2)])
+                sc(&[("read", 1), ("read-single", 0), ("read-single", 1), ("read-rm1", 1), ("read-rm1", 2), ("read-div", 2), ("read-five", 0), ("read-joint1", 0), ("read-joint1", 1), ("read-five", 1), ("read-cc", 0), ("read-lagf", 2), ("read", 2)])
             } else {
-                sc(&[("read", 1), ("read-single", 0), ("read-single", 1), ("read-rm1", 1), ("read-rm1", 2), ("read-div", 2), ("read-five", 0), ("read-five", 1), ("read-cc", 0), ("read-lagf", 2), ("read", 2), ("read-nofwd", 2), ("member-rm1-2v", 1), ("read-single", 2), ("read", 3), ("read-cc", 1), ("read", 4), ("read", 5)])
+                sc(&[("read", 1), ("read-single", 0), ("read-single", 1), ("read-rm1", 1), ("read-rm1", 2), ("read-div", 2), ("read-five", 0), ("read-joint1", 0), ("read-joint1", 1), ("read-five", 1), ("read-cc", 0), ("read-lagf", 2), ("read", 2), ("read-nofwd", 2), ("member-rm1-2v", 1), ("read-single", 2), ("read", 3), ("read-cc", 1), ("read", 4), ("read", 5)])
             };
             p.required_stats = vec![Stat::ReadStates];
             p.explanation = "explicit-state exploration; ghost max commit index over all nodes recorded when a read is issued; every ReadState in any Ready must be returned at the issuer with index >= that value".into();
@@ -122,9 +122,9 @@ pub fn plan_for(prop: &str, tier: &str) -> Plan {
         }
         "C10" => {
             p.scenarios = if q {
-                sc(&[("fig8-div-live", 1), ("snap-live", 0), ("snap-cq2-live", 0), ("xfer-abort-lost-pvcq-live", 0), ("member-promo-live", 0), ("repl-skip-dropped-live", 0), ("repl-dropped-live", 0), ("xfer-live", 0), ("stale-pvcq-live", 0), ("flow-elect-live", 0), ("member-live", 0)])
+                sc(&[("fig8-div-live", 1), ("snap-live", 0), ("snap-cq2-live", 0), ("elect-pvcq-dead1-slow3-live", 0), ("xfer-abort-lost-pvcq-live", 0), ("member-promo-live", 0), ("repl-skip-dropped-live", 0), ("repl-dropped-live", 0), ("xfer-live", 0), ("stale-pvcq-live", 0), ("flow-elect-live", 0), ("member-live", 0)])
             } else {
-                sc(&[("fig8-div-live", 1), ("snap-live", 0), ("snap-cq2-live", 0), ("xfer-abort-lost-pvcq-live", 0), ("member-promo-live", 0), ("repl-skip-dropped-live", 0), ("repl-dropped-live", 0), ("xfer-live", 0), ("stale-pvcq-live", 0), ("flow-elect-live", 0), ("member-live", 0), ("flow-live", 0), ("snap-live", 1), ("snap-cq2-live", 1), ("member-live", 1), ("xfer-abort-pvcq-live", 0), ("fig8-div-live", 2), ("flow-live", 1), ("xfer-live", 1), ("fig8-live", 1)])
+                sc(&[("fig8-div-live", 1), ("snap-live", 0), ("snap-cq2-live", 0), ("elect-pvcq-dead1-slow3-live", 0), ("xfer-abort-lost-pvcq-live", 0), ("member-promo-live", 0), ("repl-skip-dropped-live", 0), ("repl-dropped-live", 0), ("xfer-live", 0), ("stale-pvcq-live", 0), ("flow-elect-live", 0), ("member-live", 0), ("flow-live", 0), ("snap-live", 1), ("snap-cq2-live", 1), ("member-live", 1), ("xfer-abort-pvcq-live", 0), ("fig8-div-live", 2), ("flow-live", 1), ("xfer-live", 1), ("fig8-live", 1)])
             };
             p.required_stats = vec![Stat::LiveSuffixRuns];
             p.explanation = "bounded convergence from every reachable state: for every distinct state of the prefix spaces a deterministic fault-free suffix (restart, complete persistence, report snapshots, (n+3)*max_timeout rounds of tick+deliver-to-quiescence, fresh proposal, same again) must end with one leader, converged logs and the fresh entry applied on every running member; a state counts as a violation only if it fails under all three election-timeout schedulers; when a MsgSnapshot takes part in the recovery the suffix is run a second time with snapshots on a slow side channel (2*max_timeout+2 rounds per snapshot, heartbeats and appends flowing, status reported on arrival)".into();
@@ -133,9 +133,9 @@ pub fn plan_for(prop: &str, tier: &str) -> Plan {
         }
         "C13" => {
             p.scenarios = if q {
-                sc(&[("flow", 0), ("flow-cap", 0), ("repl-i1-sz", 1), ("repl", 1), ("repl-div", 1), ("repl-mix", 1), ("repl-batch-probe", 0), ("snap", 1), ("fig8-back-t4", 0), ("flow-elect", 0), ("flow-elect-inherit", 0), ("flow", 1), ("repl-batch", 1)])
+                sc(&[("flow", 0), ("flow-cap", 0), ("repl-i1-sz", 1), ("repl", 1), ("repl-div", 1), ("repl-mix", 1), ("repl-batch-probe", 0), ("repl-grown", 0), ("snap", 1), ("fig8-back-t4", 0), ("flow-elect", 0), ("flow-elect-inherit", 0), ("flow", 1), ("repl-batch", 1)])
             } else {
-                sc(&[("flow", 0), ("flow-cap", 0), ("repl-i1-sz", 1), ("repl", 1), ("repl-div", 1), ("repl-mix", 1), ("repl-batch-probe", 0), ("snap", 1), ("fig8-back-t4", 0), ("flow-elect", 0), ("flow-elect-inherit", 0), ("flow", 1), ("repl-batch", 1), ("flow-div", 1), ("flow-batch", 1), ("repl-fetch", 1), ("flow-cap", 1), ("repl-mix", 3), ("repl", 2), ("flow", 2), ("repl-batch", 2)])
+                sc(&[("flow", 0), ("flow-cap", 0), ("repl-i1-sz", 1), ("repl", 1), ("repl-div", 1), ("repl-mix", 1), ("repl-batch-probe", 0), ("repl-grown", 0), ("snap", 1), ("fig8-back-t4", 0), ("flow-elect", 0), ("flow-elect-inherit", 0), ("flow", 1), ("repl-batch", 1), ("flow-div", 1), ("flow-batch", 1), ("repl-fetch", 1), ("flow-cap", 1), ("repl-mix", 3), ("repl", 2), ("flow", 2), ("repl-batch", 2)])
             };
             p.required_stats = vec![Stat::AppendsChecked, Stat::HeartbeatsChecked, Stat::WindowFull, Stat::ProbePaused, Stat::ProposalsAccepted, Stat::ProposalsRefused];
             p.explanation = "explicit-state exploration over all ack/reject/heartbeat-response orders incl. stale, duplicated and reordered ones and runtime window resizing; reference window model per (leader, follower) driven by generated and delivered messages; every generated MsgAppend / MsgHeartbeat checked for well-formedness against the leader's own log; ghost of uncommitted payload bytes".into();
@@ -151,9 +151,9 @@ pub fn plan_for(prop: &str, tier: &str) -> Plan {
         }
         "C16" => {
             p.scenarios = if q {
-                sc(&[("lease", 1), ("lease-hb2", 1), ("elect-pv", 1), ("elect-pvcq", 1), ("lease", 2), ("lease-req", 1), ("lease5", 0)])
+                sc(&[("lease", 1), ("lease-hb2", 1), ("elect-pv", 1), ("elect-pvcq", 1), ("lease", 2), ("lease-req", 1), ("elect-pvcq-dead1-minx", 0), ("lease5", 0)])
             } else {
-                sc(&[("lease", 1), ("lease-hb2", 1), ("elect-pv", 1), ("elect-pvcq", 1), ("lease", 2), ("lease-req", 1), ("lease5", 0), ("lease", 3), ("lease-hb2", 3), ("elect-pvcq", 3), ("lease-req", 2), ("lease5", 1), ("lease", 4)])
+                sc(&[("lease", 1), ("lease-hb2", 1), ("elect-pv", 1), ("elect-pvcq", 1), ("lease", 2), ("lease-req", 1), ("elect-pvcq-dead1-minx", 0), ("lease5", 0), ("lease", 3), ("lease-hb2", 3), ("elect-pvcq", 3), ("lease-req", 2), ("lease5", 1), ("lease", 4)])
             };
             p.required_stats = vec![Stat::PreVoteDelivered, Stat::PreVotesGranted, Stat::TermRaises];
             p.explanation = "explicit-state exploration; (a) term and vote unchanged over every delivered MsgRequestPreVote; (b) with pre_vote every term raise justified by the monitor's own tally of delivered grants, a peer's higher term or MsgTimeoutNow; (c) LEASE driver: all behaviours of the minority (ticks, campaigns, crash, restart, stale and duplicated traffic) against a majority in lock-step: leader keeps leading, majority keeps its term".into();
@@ -170,16 +170,17 @@ pub fn plan_for(prop: &str, tier: &str) -> Plan {
         }
         "C20" => {
             p.scenarios = if q {
-                sc(&[("elect", 1), ("fig8-div", 1), ("crash2", 1), ("over", 0), ("crash2-split", 2), ("member-jd", 0), ("member-fresh", 1), ("elect-api", 1), ("snap-api", 0), ("xfer-api", 0), ("member-joint-api", 1), ("read-rm1-api", 2), ("crash2-split-api", 2), ("crash2-async", 1), ("member-joint", 1), ("lease", 1), ("snap", 0), ("snap-lazy", 0), ("snap-lag", 0), ("repl-compact-memq", 0), ("repl-compact", 0), ("xfer-lag-cc", 0), ("xfer", 0), ("repl-i1-sz", 1), ("repl-mix", 0), ("read", 1), ("flow", 0), ("flow-cap", 0), ("stale", 0), ("member-rm1", 0), ("member-rm1-2v", 0), ("xfer-abort", 0), ("member", 0), ("xfer-pipe", 0), ("crash2-async-loose", 1), ("stale-async", 0), ("stale-lazy", 0), ("snap-req", 0)])
+                sc(&[("elect", 1), ("fig8-div", 1), ("crash2", 1), ("over", 0), ("crash2-split", 2), ("member-jd", 0), ("member-fresh", 1), ("elect-pvcq-dead1-minx", 0), ("elect-cq-dead1-minx", 0), ("elect-api", 1), ("snap-api", 0), ("xfer-api", 0), ("member-joint-api", 1), ("read-rm1-api", 2), ("crash2-split-api", 2), ("crash2-async", 1), ("member-joint", 1), ("lease", 1), ("snap", 0), ("snap-lazy", 0), ("snap-lag", 0), ("repl-compact-memq", 0), ("repl-compact", 0), ("xfer-lag-cc", 0), ("xfer", 0), ("repl-i1-sz", 1), ("repl-mix", 0), ("read", 1), ("flow", 0), ("flow-cap", 0), ("stale", 0), ("member-rm1", 0), ("member-rm1-2v", 0), ("xfer-abort", 0), ("member", 0), ("xfer-pipe", 0), ("crash2-async-loose", 1), ("stale-async", 0), ("stale-lazy", 0), ("snap-req", 0)])
             } else {
-                sc(&[("elect", 1), ("fig8-div", 1), ("crash2", 1), ("over", 0), ("crash2-split", 2), ("member-jd", 0), ("member-fresh", 1), ("elect-api", 1), ("snap-api", 0), ("xfer-api", 0), ("member-joint-api", 1), ("read-rm1-api", 2), ("crash2-split-api", 2), ("crash2-async", 1), ("member-joint", 1), ("lease", 1), ("snap", 0), ("snap-lazy", 0), ("snap-lag", 0), ("repl-compact-memq", 0), ("repl-compact", 0), ("xfer-lag-cc", 0), ("xfer", 0), ("repl-i1-sz", 1), ("repl-mix", 0), ("read", 1), ("flow", 0), ("flow-cap", 0), ("stale", 0), ("member-rm1", 0), ("member-rm1-2v", 0), ("xfer-abort", 0), ("member", 0), ("xfer-pipe", 0), ("crash2-async-loose", 1), ("stale-async", 0), ("stale-lazy", 0), ("snap-req", 0), ("member-rm1-lazy", 1), ("member-rm1-async", 1), ("read-lease", 1), ("read-nofwd", 1), ("repl-fetch", 1), ("repl-gc", 1), ("elect-prio", 1), ("member-mix", 1), ("crash3", 1), ("repl-batch", 1), ("snap", 1), ("stale-lazy", 1), ("stale-async", 1), ("member", 1), ("crash3-lazy", 1), ("crash2-async-loose", 2), ("crash3-async", 1), ("over", 1), ("over-two", 0), ("over-loose", 0), ("fig8", 1), ("xfer", 1), ("flow", 1), ("member-jd", 1), ("snap-lazy-unp", 1), ("member-rm1-api", 0), ("stale-api", 0), ("member-rm1-2v-api", 0), ("snap-req-api", 0), ("repl-compact-memq", 1), ("repl-compact", 1), ("snap-memq", 2), ("snap-fig8-memq", 1)])
+                sc(&[("elect", 1), ("fig8-div", 1), ("crash2", 1), ("over", 0), ("crash2-split", 2), ("member-jd", 0), ("member-fresh", 1), ("elect-pvcq-dead1-minx", 0), ("elect-cq-dead1-minx", 0), ("elect-api", 1), ("snap-api", 0), ("xfer-api", 0), ("member-joint-api", 1), ("read-rm1-api", 2), ("crash2-split-api", 2), ("crash2-async", 1), ("member-joint", 1), ("lease", 1), ("snap", 0), ("snap-lazy", 0), ("snap-lag", 0), ("repl-compact-memq", 0), ("repl-compact", 0), ("xfer-lag-cc", 0), ("xfer", 0), ("repl-i1-sz", 1), ("repl-mix", 0), ("read", 1), ("flow", 0), ("flow-cap", 0), ("stale", 0), ("member-rm1", 0), ("member-rm1-2v", 0), ("xfer-abort", 0), ("member", 0), ("xfer-pipe", 0), ("crash2-async-loose", 1), ("stale-async", 0), ("stale-lazy", 0), ("snap-req", 0), ("member-rm1-lazy", 1), ("member-rm1-async", 1), ("read-lease", 1), ("read-nofwd", 1), ("repl-fetch", 1), ("repl-gc", 1), ("elect-prio", 1), ("member-mix", 1), ("crash3", 1), ("repl-batch", 1), ("snap", 1), ("stale-lazy", 1), ("stale-async", 1), ("member", 1), ("crash3-lazy", 1), ("crash2-async-loose", 2), ("crash3-async", 1), ("over", 1), ("over-two", 0), ("over-loose", 0), ("fig8", 1), ("xfer", 1), ("flow", 1), ("member-jd", 1), ("elect-pv", 2), ("snap-lazy-unp", 1), ("member-rm1-api", 0), ("stale-api", 0), ("member-rm1-2v-api", 0), ("snap-req-api", 0), ("repl-compact-memq", 1), ("repl-compact", 1), ("snap-memq", 2), ("snap-fig8-memq", 1)])
             };
             p.required_stats = vec![Stat::BadMsgOffered, Stat::ReadyChecked, Stat::MsgsReleased, Stat::ApiProbes];
             p.explanation = "every API call of every explored execution runs under catch_unwind: a panic, failed assert!/debug_assert!, fatal!, index out of bounds or arithmetic overflow (debug-assertions and overflow-checks are on) is a violation; in every state local-only message types and responses from non-members are offered to step() on a clone and must be rejected with the documented error without changing the state digest; in the -api scenarios every public RawNode entry point (read_index, request_snapshot, ping, campaign on promotable nodes, transfer_leader / report_unreachable / report_snapshot with member, own and unknown ids, propose, propose_conf_change) is offered to a clone of every node in every state and must not panic".into();
         }
         "C11" => {
             p.components = vec!["quorum"];
-            p.explanation = "complete enumeration of voter sets, acked-index vectors, vote maps and group assignments against the definitional quorum arithmetic".into();
+            p.scenarios = if q { sc(&[("snap-gc", 0), ("snap-gc", 1), ("repl-gc", 1), ("fig8-div-gc", 1)]) } else { sc(&[("snap-gc", 0), ("snap-gc", 1), ("repl-gc", 1), ("fig8-div-gc", 1), ("fig8-div-gc", 2), ("snap-gc", 2), ("repl-gc", 2)]) };
+            p.explanation = "complete enumeration of voter sets, acked-index vectors, vote maps and group assignments against the definitional quorum arithmetic; plus cluster scenarios with group commit on (snapshot install, replication, Figure-8 hand-over) in which the tracker must keep the setting and every commit is checked against the durable quorum rule".into();
             p.assumptions = vec!["value bounds listed in the run statistics (config sizes 0-9, indexes 0-3, groups 0-2)".into()];
         }
         "C19" => {
